@@ -142,12 +142,28 @@ SPECS = {
     "YAEP_REPEATED_SYMBOL_NUMBER": [["-1*L[(L[&out3(read_rule)])[i]] + L[(rule).rule.rhs_len] + -1 >= 0", "L[(L[(rule).rule.order])[L[(L[&out3(read_rule)])[i]]]] >= 0", "L[(L[&out3(read_rule)])[i]] >= 0"]],
     "YAEP_UNACCESSIBLE_NONTERM": [["L[(nonterm_get(i)).symb.access_p] == 0", "strict_p != 0"]],
     "YAEP_NONTERM_DERIVATION": [["L[(nonterm_get(i)).symb.derivation_p] == 0", "strict_p != 0"],
-                                ["L[(L[(L[@grammar]).grammar.axiom]).symb.derivation_p] == 0", "strict_p == 0"]],
+                                # the start symbol of the user's grammar (first symbol of the first rule, `$S : <start> $eof'); `$S' itself always derives
+                                # `error $eof' and is not the documented subject of the check
+                                ["re:^L\\[\\((?!L\\[\\(L\\[@grammar\\]\\)\\.grammar\\.axiom\\]\\)).*\\.symb\\.derivation_p\\] == 0$", "strict_p == 0"]],
     "YAEP_LOOP_NONTERM": [["L[(nonterm_get(i)).symb.u.symb.u.nonterm.loop_p] != 0"]],
     "YAEP_DESCRIPTION_SYNTAX_ERROR_CODE": [[]],
 }
 
+SPEC_TEXT = {}
+for _spec in SPECS["YAEP_NONTERM_DERIVATION"]:
+    for _c in _spec:
+        if _c.startswith("re:"):
+            SPEC_TEXT[_c] = "<the start symbol of the grammar, not `$S'>.derivation_p == 0"
+
 DEFINING = ["yaep_read_grammar", "set_sgrammar"]
+
+
+def _has(conds, c):
+    """spec element: a literal condition, or `re:<regex>' (a family of equivalent spellings), or `not:<regex>' (no condition may match)"""
+    import re
+    if c.startswith("re:"):
+        return any(re.search(c[3:], x) for x in conds)
+    return c in conds
 
 
 def _atoms(cond):
@@ -185,7 +201,7 @@ def rule_code_table(ctx, rep, config="c-lib"):
         conds = site_conditions(p, f, i)
         ok = None
         for si, spec in enumerate(SPECS[cname]):
-            if all(c in conds for c in spec):
+            if all(_has(conds, c) for c in spec):
                 ok = si
                 break
         if ok is not None:
@@ -197,13 +213,15 @@ def rule_code_table(ctx, rep, config="c-lib"):
         near = None
         cat = set(a for c in conds for a in _atoms(c))
         for spec in SPECS[cname]:
-            sat = set(a for c in spec for a in _atoms(c))
-            if sat and sat <= cat:
+            sat = set(a for c in spec if not c.startswith("re:") for a in _atoms(c))
+            if sat and sat <= cat and (near is None or all(_has(conds, c) for c in spec if not c.startswith("re:"))):
                 near = spec
         if near is not None:
-            missing = [c for c in near if c not in conds]
+            missing = [c for c in near if not _has(conds, c)]
+            shown = [SPEC_TEXT.get(c, c) for c in missing]
             rep.violation("C10-codes", key, "%s is raised under another predicate than documented: expected %s, the site is controlled by %s" % (
-                cname, missing, [c for c in conds if set(_atoms(c)) & set(a for x in missing for a in _atoms(x))]), where=i.where(), witness=[i.where()] + conds)
+                cname, shown, [c for c in conds if (set(_atoms(c)) & set(a for x in missing for a in _atoms(x))) or any(x.startswith("re:") for x in missing)]),
+                where=i.where(), witness=[i.where()] + conds)
         else:
             rep.broke("C10-codes", "site %s of %s is controlled by conditions of a structure the table does not know: %s" % (i.where(), cname, conds))
     # a defect documented without reference to the strictness of the check is detected in both modes
@@ -226,7 +244,7 @@ def rule_code_table(ctx, rep, config="c-lib"):
                 rep.ok("C10-codes", key, nontrivial=False)
             else:
                 rep.violation("C10-codes", key, "no reachable check implements the documented defect `%s' under %s: such a grammar is accepted (or rejected with another code)" % (
-                    cname, spec if spec else "a description syntax error"), where=m.functions["yaep_read_grammar"].where())
+                    cname, [SPEC_TEXT.get(c, c) for c in spec] if spec else "a description syntax error"), where=m.functions["yaep_read_grammar"].where())
     rep.floor("C10-codes", "error sites of definition codes", n, 20)
     # the checks precede the success store
     rg = p.fn("yaep_read_grammar")
